@@ -44,7 +44,7 @@ def run_vx(unit_list, units, workdir):
                     it['partial'] = True
                 if e.opts.get('no_eager_iter'):
                     it['no_eager_iter'] = True
-                for k in ('into_as', 'slice_before', 'ret_name'):
+                for k in ('into_as', 'slice_before', 'ret_name', 'slice_from', 'frag_name', 'frag_params', 'frag_ret'):
                     if k in e.opts:
                         it[k] = e.opts[k]
                 if 'opaque_fields' in e.opts:
@@ -234,12 +234,14 @@ def assemble(unit_names, workdir, repo=None):
                 continue
             o = ext[id(e)]
             cont = o['container']
+            if 'container' in e.opts:
+                cont = '' if e.opts['container'] in ('none', True) else e.opts['container']
             if cont != (open_container or ''):
                 if open_container is not None:
                     emit("}\n", un, None)
                     open_container = None
                 if cont:
-                    header = e.opts.get('container', cont)
+                    header = cont
                     if header.startswith('trait '):
                         header = 'pub ' + header
                     emit(header + " {\n", un, None)
